@@ -4,7 +4,7 @@
    by instantiated cells of the same library). *)
 From Coq Require Import List NArith Bool Arith Lia Permutation.
 From SV Require Import Base.Base Fmt.EdifTopo Fmt.EdifNets Fmt.EdifFile Fmt.EdifEmit
-  Proofs.EdifTopoProofs Proofs.EdifEmitLemmas Proofs.EdifEmitCell.
+  Proofs.EdifTopoProofs Proofs.EdifEmitProofs Proofs.EdifEmitLemmas Proofs.EdifEmitCell.
 Import ListNotations.
 
 Lemma ident_eqb_lower a b : ident_eqb a b = true <-> lower a = lower b.
@@ -127,3 +127,146 @@ Proof.
   exact (precedes_index ks d' k' od o Hnd Eod Eo (Hsorted o od Hino Hdep)).
 Qed.
 End Gen.
+
+(* ---------------------------------------------------------------------------------------- *)
+Lemma ordered_by_intro deps len : (forall o d, In d (deps o) -> d < o) -> ordered_by deps len = true.
+Proof.
+  intros H. unfold ordered_by. apply forallb_forall. intros o _. apply forallb_forall. intros d Hd.
+  apply Nat.ltb_lt. auto.
+Qed.
+
+Lemma pick_in {X} (l : list X) ks l' x : pick l ks = Some l' -> In x l' -> In x l.
+Proof.
+  intros Hp Hin. destruct (pick_nth l ks l' Hp) as [Hlen Hnth].
+  apply In_nth_error in Hin as [j Hj].
+  assert (Hlt : j < length l') by (apply nth_error_Some; congruence). rewrite Hlen in Hlt.
+  destruct (nth_error ks j) as [k|] eqn:Ek; [|apply nth_error_None in Ek; unfold node in *; lia].
+  rewrite (Hnth j k Ek) in Hj. eapply nth_error_In; eauto.
+Qed.
+
+Lemma reorder_in {X} deps (l l' : list X) x : reorder deps l = Some l' -> In x l' -> In x l.
+Proof.
+  unfold reorder. destruct (topological_sort deps (seq 0 (length l))); [|discriminate]. apply pick_in.
+Qed.
+
+(* cells of one library *)
+Definition crefs (lib : str) (c : nvcell) : list str :=
+  flat_map (fun i => match in_ref i with
+                     | Some (l, cn) => if ident_eqb l lib then [cn] else []
+                     | None => []
+                     end) (ce_insts c).
+
+Lemma cell_deps_gdeps L k d :
+  In d (cell_deps L k) <-> In d (gdeps ce_ident (crefs (li_ident L)) (li_cells L) k).
+Proof.
+  unfold cell_deps, gdeps. destruct (nth_error (li_cells L) k) as [c|]; [|tauto]. unfold crefs. split; intros H.
+  - apply in_flat_map in H as (i & Hi & Hd). apply in_flat_map.
+    destruct (in_ref i) as [[l cn]|] eqn:Er; [|destruct Hd].
+    destruct (ident_eqb l (li_ident L)) eqn:El; [|destruct Hd].
+    exists cn. split; auto. apply in_flat_map. exists i. split; auto. rewrite Er, El. now left.
+  - apply in_flat_map in H as (r & Hr & Hd). apply in_flat_map in Hr as (i & Hi & Hr).
+    apply in_flat_map. exists i. split; auto.
+    destruct (in_ref i) as [[l cn]|]; [|destruct Hr]. destruct (ident_eqb l (li_ident L)); [|destruct Hr].
+    destruct Hr as [->|[]]. exact Hd.
+Qed.
+
+Lemma Forall2_refl {X} (R : X -> X -> Prop) l : (forall x, R x x) -> Forall2 R l l.
+Proof. intros H. induction l; constructor; auto. Qed.
+
+Lemma cells_reorder_ordered L cells' :
+  uniq_ci (map ce_ident (li_cells L)) = true -> irreflexive (cell_deps L) ->
+  reorder (cell_deps L) (li_cells L) = Some cells' ->
+  ordered_by (cell_deps (mklib (li_name L) (li_ident L) cells')) (length cells') = true.
+Proof.
+  intros Hu Hirr Hre. apply ordered_by_intro. intros o d Hd.
+  apply (cell_deps_gdeps (mklib (li_name L) (li_ident L) cells')) in Hd. cbn [li_ident li_cells] in Hd.
+  eapply (reorder_ordered_gen ce_ident (crefs (li_ident L)) (cell_deps L) (li_cells L) cells' cells'); eauto.
+  - intros k d0. apply cell_deps_gdeps.
+  - intros k Hk. apply (Hirr k). now apply cell_deps_gdeps.
+  - apply Forall2_refl. auto.
+Qed.
+
+(* libraries *)
+Definition lrefs (L : nvlib) : list str :=
+  flat_map (fun c => flat_map (fun i => match in_ref i with
+                                        | Some (l, _) => if ident_eqb l (li_ident L) then [] else [l]
+                                        | None => []
+                                        end) (ce_insts c)) (li_cells L).
+
+Lemma lib_deps_gdeps libs k d : In d (lib_deps libs k) <-> In d (gdeps li_ident lrefs libs k).
+Proof.
+  unfold lib_deps, gdeps. destruct (nth_error libs k) as [L|]; [|tauto]. unfold lrefs. split; intros H.
+  - apply in_flat_map in H as (c & Hc & H). apply in_flat_map in H as (i & Hi & Hd). apply in_flat_map.
+    destruct (in_ref i) as [[l cn]|] eqn:Er; [|destruct Hd].
+    destruct (ident_eqb l (li_ident L)) eqn:El; [destruct Hd|].
+    exists l. split; auto. apply in_flat_map. exists c. split; auto. apply in_flat_map. exists i. split; auto.
+    rewrite Er, El. now left.
+  - apply in_flat_map in H as (r & Hr & Hd). apply in_flat_map in Hr as (c & Hc & Hr).
+    apply in_flat_map in Hr as (i & Hi & Hr).
+    apply in_flat_map. exists c. split; auto. apply in_flat_map. exists i. split; auto.
+    destruct (in_ref i) as [[l cn]|]; [|destruct Hr]. destruct (ident_eqb l (li_ident L)); [destruct Hr|].
+    destruct Hr as [->|[]]. exact Hd.
+Qed.
+
+Lemma lib_gdeps_irreflexive libs k : ~ In k (gdeps li_ident lrefs libs k).
+Proof.
+  intros H. apply in_gdeps in H as (L & r & HL & Hr & Hidx).
+  destruct (index_ci_some r (map li_ident libs) k Hidx) as (x & Hx & Ex).
+  rewrite nth_error_map, HL in Hx. cbn in Hx. inversion Hx. subst x.
+  unfold lrefs in Hr. apply in_flat_map in Hr as (c & _ & Hr). apply in_flat_map in Hr as (i & _ & Hr).
+  destruct (in_ref i) as [[l cn]|]; [|destruct Hr]. destruct (ident_eqb l (li_ident L)) eqn:El; [destruct Hr|].
+  destruct Hr as [->|[]]. assert (ident_eqb r (li_ident L) = true) by (apply ident_eqb_lower; auto). congruence.
+Qed.
+
+Lemma omap_Forall2 {X Y} (f : X -> option Y) : forall l l', omap f l = Some l' -> Forall2 (fun a b => f a = Some b) l l'.
+Proof.
+  induction l as [|a l IH]; intros l' H; cbn [omap] in H; [inversion H; constructor|].
+  destruct (f a) as [b|] eqn:Ea; [|discriminate]. destruct (omap f l) as [r|] eqn:Er; [|discriminate].
+  inversion H. constructor; auto.
+Qed.
+
+(* the pre-pass ends in dependency order, for every netlist value whose sibling identifiers are
+   pairwise different and in which no cell instantiates itself *)
+Theorem prepass_result_ordered n n1 :
+  uniq_ci (map li_ident (nf_libs n)) = true ->
+  (forall L, In L (nf_libs n) -> uniq_ci (map ce_ident (li_cells L)) = true /\ irreflexive (cell_deps L)) ->
+  prepass n = Some n1 -> ordered n1 = true.
+Proof.
+  intros Hu Hcells Hp. unfold prepass in Hp.
+  destruct (reorder (lib_deps (nf_libs n)) (nf_libs n)) as [libs1|] eqn:Er; [|discriminate].
+  destruct (omap _ libs1) as [libs'|] eqn:Eo; [|discriminate]. inversion Hp. subst n1. clear Hp.
+  apply omap_Forall2 in Eo. unfold ordered. cbn [nf_libs]. apply andb_true_iff. split.
+  - apply ordered_by_intro. intros o d Hd. apply lib_deps_gdeps in Hd.
+    eapply (reorder_ordered_gen li_ident lrefs (lib_deps (nf_libs n)) (nf_libs n) libs1 libs'); eauto.
+    + intros k d0. apply lib_deps_gdeps.
+    + apply lib_gdeps_irreflexive.
+    + clear - Eo. induction Eo as [|a b la lb Hab _ IH]; constructor; auto.
+      destruct (reorder (cell_deps a) (li_cells a)) as [cells'|] eqn:Ec; [|discriminate]. cbn in Hab. inversion Hab. subst b.
+      split; [reflexivity|]. intros r Hr. unfold lrefs in *. cbn [li_cells li_ident] in Hr.
+      apply in_flat_map in Hr as (c & Hc & Hr). apply in_flat_map. exists c. split; auto.
+      eapply reorder_in; eauto.
+  - apply forallb_forall. intros L' HL'.
+    assert (Hex : exists a, In a libs1 /\ option_map (mklib (li_name a) (li_ident a)) (reorder (cell_deps a) (li_cells a)) = Some L').
+    { clear - Eo HL'. induction Eo as [|a b la lb Hab _ IH]; [destruct HL'|].
+      destruct HL' as [<-|HL']; [exists a; split; [now left|auto]|].
+      destruct (IH HL') as (a' & Ha' & E). exists a'. split; [now right|auto]. }
+    destruct Hex as (a & Ha & E).
+    destruct (reorder (cell_deps a) (li_cells a)) as [cells'|] eqn:Ec; [|discriminate]. cbn in E. inversion E. subst L'.
+    cbn [li_cells]. assert (Hina : In a (nf_libs n)) by (eapply reorder_in; eauto).
+    destruct (Hcells a Hina) as [Hua Hia]. now apply cells_reorder_ordered.
+Qed.
+
+Theorem prepass_idempotent n n1 :
+  uniq_ci (map li_ident (nf_libs n)) = true ->
+  (forall L, In L (nf_libs n) -> uniq_ci (map ce_ident (li_cells L)) = true /\ irreflexive (cell_deps L)) ->
+  prepass n = Some n1 -> prepass n1 = Some n1.
+Proof. intros Hu Hc Hp. apply Proofs.EdifEmitProofs.prepass_ordered. eapply prepass_result_ordered; eauto. Qed.
+
+(* emit_file (prepass (prepass n)) = emit_file (prepass n) *)
+Theorem emit_prepass_idempotent ts prog fl n n1 n2 :
+  uniq_ci (map li_ident (nf_libs n)) = true ->
+  (forall L, In L (nf_libs n) -> uniq_ci (map ce_ident (li_cells L)) = true /\ irreflexive (cell_deps L)) ->
+  prepass n = Some n1 -> prepass n1 = Some n2 -> emit_file ts prog fl n2 = emit_file ts prog fl n1.
+Proof.
+  intros Hu Hc Hp H2. rewrite (prepass_idempotent n n1 Hu Hc Hp) in H2. now inversion H2.
+Qed.
